@@ -70,6 +70,7 @@ struct recv {
   Inner inner;
   void* owner;
   void (*destroy)(void*, int);   // destroys the wait operation (and poisons its storage)
+  inplace_stop_token tok;        // always already stopped: the wait must complete with value anyway
   void set_value() && noexcept {
     RunState* r = rs; int wi = w;
     int onctx = r->have_ctx ? (int)(std::this_thread::get_id() == r->ctx_thread) : -1;
@@ -81,6 +82,7 @@ struct recv {
   template <class E>
   void set_error(E&&) && noexcept { dsched::action("w%d error", w); }
   void set_done() && noexcept { dsched::action("w%d cancelled", w); }
+  friend inplace_stop_token tag_invoke(tag_t<get_stop_token>, const recv& r) noexcept { return r.tok; }
   friend hop_scheduler<Inner> tag_invoke(tag_t<get_scheduler>, const recv& r) noexcept {
     return hop_scheduler<Inner>{r.inner, r.w, r.rs};
   }
@@ -106,8 +108,9 @@ std::vector<std::function<void()>> make_threads(bool sig0, const std::vector<Cmd
   using R = recv<Inner>;
   using op_t = connect_result_t<decltype(std::declval<async_manual_reset_event&>().async_wait()), R>;
   struct Shared {
-    explicit Shared(bool s) : evt(s) {}
+    explicit Shared(bool s) : evt(s) { stopped.request_stop(); }
     async_manual_reset_event evt;
+    inplace_stop_source stopped;
     RunState rs;
     manual_lifetime<op_t> ops[MAXW];
     bool live[MAXW] = {};
@@ -140,7 +143,7 @@ std::vector<std::function<void()>> make_threads(bool sig0, const std::vector<Cmd
               std::memset(static_cast<void*>(&s->ops[k]), 0xAB, sizeof(s->ops[k]));
             };
             sh->ops[wi].construct_with([&] {
-              return unifex::connect(sh->evt.async_wait(), R{&sh->rs, wi, in, sh.get(), destroy});
+              return unifex::connect(sh->evt.async_wait(), R{&sh->rs, wi, in, sh.get(), destroy, sh->stopped.get_token()});
             });
             sh->live[wi] = true;
             auto* base = (_amre::_op_base*)(&sh->ops[wi].get());   // private base: C-style cast
